@@ -173,7 +173,10 @@ pub fn file_offset_of(fd: i32, start: u64) -> FileOffset {
 
 // ------------------------------------------------------------------ one history (runs in the child)
 struct Ctx {
-    region: GuestRegionMmap<()>,
+    region: std::sync::Arc<GuestRegionMmap<()>>,
+    /// a guest memory holding exactly that region (the guest-memory level of `Bytes`)
+    gm: vm_memory::GuestMemoryMmap<()>,
+    gbase: u64,
     rkind: u64,
     fd: i32,
     data_base: u64,
@@ -228,6 +231,29 @@ impl Ctx {
     }
 }
 
+macro_rules! with_k {
+    ($k:expr, $T:ident => $e:expr) => {
+        match $k {
+            1 => { type $T = [u8; 1]; $e }
+            2 => { type $T = [u8; 2]; $e }
+            3 => { type $T = [u8; 3]; $e }
+            4 => { type $T = [u8; 4]; $e }
+            5 => { type $T = [u8; 5]; $e }
+            6 => { type $T = [u8; 6]; $e }
+            7 => { type $T = [u8; 7]; $e }
+            8 => { type $T = [u8; 8]; $e }
+            9 => { type $T = [u8; 9]; $e }
+            10 => { type $T = [u8; 10]; $e }
+            11 => { type $T = [u8; 11]; $e }
+            12 => { type $T = [u8; 12]; $e }
+            13 => { type $T = [u8; 13]; $e }
+            14 => { type $T = [u8; 14]; $e }
+            15 => { type $T = [u8; 15]; $e }
+            16 => { type $T = [u8; 16]; $e }
+            _ => panic!("bad element size"),
+        }
+    };
+}
 /// Some(true) = done and the data is right, Some(false) = done, wrong data, None = returned Err
 fn typed<T: ByteValued>(cx: &mut Ctx, code: u64, off: usize, nn: usize, c: usize) -> Option<bool> {
     let t = std::mem::size_of::<T>();
@@ -283,7 +309,7 @@ fn typed<T: ByteValued>(cx: &mut Ctx, code: u64, off: usize, nn: usize, c: usize
         }
         13 => {
             // nn = slice length in bytes
-            let sl = VolatileMemory::get_slice(&*cx.region, off, nn).ok()?;
+            let sl = VolatileMemory::get_slice(&**cx.region, off, nn).ok()?;
             let bytes = cx.rng.bytes(t * c);
             let buf: Vec<T> = (0..c).map(|i| mk(&bytes[i * t..i * t + t])).collect();
             sl.copy_from(&buf);
@@ -292,7 +318,7 @@ fn typed<T: ByteValued>(cx: &mut Ctx, code: u64, off: usize, nn: usize, c: usize
             Some(true)
         }
         14 => {
-            let sl = VolatileMemory::get_slice(&*cx.region, off, nn).ok()?;
+            let sl = VolatileMemory::get_slice(&**cx.region, off, nn).ok()?;
             let mut buf: Vec<T> = (0..c).map(|_| unsafe { std::mem::zeroed() }).collect();
             let got = sl.copy_to(&mut buf);
             let m = if t == 1 { c.min(nn) } else { c.min(nn / t) };
@@ -425,7 +451,7 @@ fn run_op(cx: &mut Ctx, op: &[u128]) -> Option<bool> {
             }
         }
         10 => {
-            let s = VolatileMemory::get_slice(&*cx.region, off, a).ok()?;
+            let s = VolatileMemory::get_slice(&**cx.region, off, a).ok()?;
             let mut local = vec![0u8; a];
             let dst = VolatileSlice::from(&mut local[..]);
             s.copy_to_volatile_slice(dst);
@@ -510,6 +536,73 @@ fn run_op(cx: &mut Ctx, op: &[u128]) -> Option<bool> {
             }
             go2!(1, 2, 3, 4, 5, 6, 7, 8, 9, 10, 11, 12, 13, 14, 15, 16)
         }
+        19..=34 => bytes_op(cx, code, off, a, b),
+        _ => panic!("bad op"),
+    }
+}
+
+/// Every method of the `Bytes` trait at REGION level (`Bytes<MemoryRegionAddress> for GuestRegionMmap`) and at
+/// GUEST-MEMORY level (`Bytes<GuestAddress>` of a GuestMemoryMmap holding the region) that run_op does not drive above
+/// (store / load are the known finding F6b and stay in C17xenfind):
+///   19 R write_slice len=a   20 R read_slice   21 R write_obj::<[u8; a]>   22 R read_obj
+///   23 R read_exact_volatile_from(&[u8] of a+b bytes, count=a)   24 R write_all_volatile_to(Vec, count=a)
+///   25 G write len=a   26 G read   27 G write_slice   28 G read_slice   29 G write_obj::<[u8; a]>   30 G read_obj
+///   31 G read_volatile_from(&[u8] of b >= a bytes, count=a)   32 G write_volatile_to(Vec, count=a)
+///   33 G read_exact_volatile_from(&[u8] of a+b bytes, count=a)   34 G write_all_volatile_to(Vec, count=a)
+fn bytes_op(cx: &mut Ctx, code: u64, off: usize, a: usize, b: usize) -> Option<bool> {
+    let ra = MemoryRegionAddress(off as u64);
+    let ga = GuestAddress(cx.gbase + off as u64);
+    // the bytes a transfer of `a` bytes at `off` can reach
+    let fit = if off < cx.size { a.min(cx.size - off) } else { 0 };
+    match code {
+        19 | 21 | 25 | 27 | 29 => {
+            let buf = cx.rng.bytes(a);
+            let r: Option<usize> = match code {
+                19 => cx.region.write_slice(&buf, ra).ok().map(|_| a),
+                27 => cx.gm.write_slice(&buf, ga).ok().map(|_| a),
+                25 => cx.gm.write(&buf, ga).ok(),
+                21 => with_k!(a, T => cx.region.write_obj::<T>(mk::<T>(&buf), ra).ok().map(|_| a)),
+                _ => with_k!(a, T => cx.gm.write_obj::<T>(mk::<T>(&buf), ga).ok().map(|_| a)),
+            };
+            // a refused slice / object form has still stored what fitted
+            cx.shadow[off.min(cx.size)..off.min(cx.size) + fit].copy_from_slice(&buf[..fit]);
+            Some(r? == fit)
+        }
+        20 | 22 | 26 | 28 | 30 => {
+            let mut buf = vec![0u8; a];
+            let r: usize = match code {
+                20 => cx.region.read_slice(&mut buf, ra).ok().map(|_| a)?,
+                28 => cx.gm.read_slice(&mut buf, ga).ok().map(|_| a)?,
+                26 => cx.gm.read(&mut buf, ga).ok()?,
+                22 => with_k!(a, T => { let v = cx.region.read_obj::<T>(ra).ok()?; buf.copy_from_slice(v.as_slice()); a }),
+                _ => with_k!(a, T => { let v = cx.gm.read_obj::<T>(ga).ok()?; buf.copy_from_slice(v.as_slice()); a }),
+            };
+            Some(r == fit && (r == 0 || buf[..r] == cx.shadow[off..off + r]))
+        }
+        23 | 31 | 33 => {
+            let src = cx.rng.bytes(if code == 31 { b } else { a + b });
+            let mut rd: &[u8] = &src[..];
+            let r: Option<usize> = match code {
+                23 => cx.region.read_exact_volatile_from(ra, &mut rd, a).ok().map(|_| a),
+                31 => cx.gm.read_volatile_from(ga, &mut rd, a).ok(),
+                _ => cx.gm.read_exact_volatile_from(ga, &mut rd, a).ok().map(|_| a),
+            };
+            // region level refuses before it stores (get_slice of the whole range); guest level stores what fits
+            let stored = if code == 23 { if r.is_some() { a } else { 0 } } else { fit };
+            if stored > 0 {
+                cx.shadow[off..off + stored].copy_from_slice(&src[..stored]);
+            }
+            Some(r? == if code == 23 { a } else { fit })
+        }
+        24 | 32 | 34 => {
+            let mut sink: Vec<u8> = Vec::new();
+            let r: usize = match code {
+                24 => cx.region.write_all_volatile_to(ra, &mut sink, a).ok().map(|_| a)?,
+                32 => cx.gm.write_volatile_to(ga, &mut sink, a).ok()?,
+                _ => cx.gm.write_all_volatile_to(ga, &mut sink, a).ok().map(|_| a)?,
+            };
+            Some(r == if code == 24 { a } else { fit } && sink.len() == r && (r == 0 || sink[..] == cx.shadow[off..off + r]))
+        }
         _ => panic!("bad op"),
     }
 }
@@ -576,7 +669,9 @@ fn setup(case: &[Tok], out: &mut File) -> Option<Ctx> {
         }
     }
     dev_take();
-    Some(Ctx { region, rkind, fd, data_base, size, shadow, rng, efault: false })
+    let region = std::sync::Arc::new(region);
+    let gm = vm_memory::GuestMemoryMmap::from_arc_regions(vec![region.clone()]).unwrap();
+    Some(Ctx { region, gm, gbase, rkind, fd, data_base, size, shadow, rng, efault: false })
 }
 
 /// one operation: S line, the operation (panics caught), O line
@@ -599,7 +694,8 @@ fn observe(cx: &mut Ctx, out: &mut File, f: impl FnOnce(&mut Ctx) -> Option<bool
 
 fn finish(cx: Ctx, out: &mut File) {
     let alive = dev_mapped();
-    let Ctx { region, .. } = cx;
+    let Ctx { region, gm, .. } = cx;
+    drop(gm);
     drop(region);
     writeln!(out, "E {:x} {:x} {:x}", alive, dev_mapped(), dev_live()).unwrap();
 }
@@ -625,7 +721,7 @@ fn exec(case: &[Tok]) -> Vec<Tok> {
     for t in &case[5..] {
         let l = t.l();
         assert!(l.len() == 5);
-        assert!(l[0] <= 18 && l[1] < (1 << 24) && l[2] < (1 << 20) && l[3] < (1 << 16) && l[4] < (1 << 16));
+        assert!(l[0] <= 34 && l[1] < (1 << 24) && l[2] < (1 << 20) && l[3] < (1 << 16) && l[4] < (1 << 16));
         if (3..=8).contains(&l[0]) {
             assert!((1..=16).contains(&l[2]));
         }
@@ -634,6 +730,12 @@ fn exec(case: &[Tok]) -> Vec<Tok> {
         }
         if l[0] == 13 || l[0] == 14 {
             assert!((1..=16).contains(&l[3]));
+        }
+        if [21, 22, 29, 30].contains(&l[0]) {
+            assert!((1..=16).contains(&l[2]));
+        }
+        if l[0] == 31 {
+            assert!(l[3] >= l[2]);
         }
     }
     fork_run(case, case.len() - 5, child)
@@ -745,6 +847,17 @@ fn rand_op(rng: &mut Rng, size: u64, page: u64, allow_raw: bool) -> Tok {
         x if !allow_raw => x + 2,
         x => x,
     };
+    // a third of the operations: the remaining methods of `Bytes` at region and at guest-memory level
+    if rng.chance(1, 3) {
+        let code = rng.range(19, 34);
+        let t16 = rng.range(1, 16);
+        return match code {
+            21 | 22 | 29 | 30 => op(code, off, t16, 0, 0),
+            23 | 33 => op(code, off, len, rng.below(4), 0),
+            31 => op(code, off, len, len + rng.below(3), 0),
+            _ => op(code, off, len, 0, 0),
+        };
+    }
     match code {
         0 | 1 => op(code, off, len, 0, 0),
         2 => op(2, off, len, rng.below(2), rng.below(10)),
@@ -788,6 +901,10 @@ fn gen(rng: &mut Rng, tier: Tier, emit: &mut dyn FnMut(Vec<Tok>)) {
         // descriptor streams: empty transfers and refused offsets
         case(rkind, size, gbase, vec![op(15, page, 0, 8, 0), op(16, page, 0, 2, 0), op(17, page, 0, 0, 0), op(18, 2 * page, 0, 0, 0)]);
         case(rkind, size, gbase, vec![op(15, 2 * page, 8, 8, 0), op(15, 2 * page + 1, 8, 8, 0), op(16, 2 * page - 4, 8, 0, 0), op(18, 2 * page - 4, 8, 0, 0), op(17, 2 * page + 1, 1, 0, 0)]);
+        // the object / slice / exact forms at both levels: at and past the end, empty
+        case(rkind, size, gbase, vec![op(21, 2 * page - 4, 8, 0, 0), op(22, 2 * page - 4, 8, 0, 0), op(29, 2 * page - 4, 8, 0, 0), op(30, 2 * page - 4, 8, 0, 0), op(19, 2 * page, 4, 0, 0), op(27, 2 * page, 4, 0, 0), op(28, 2 * page + 1, 4, 0, 0)]);
+        case(rkind, size, gbase, vec![op(19, page, 0, 0, 0), op(27, 2 * page, 0, 0, 0), op(25, 2 * page, 0, 0, 0), op(31, page, 0, 0, 0), op(31, 2 * page, 0, 0, 0), op(33, 2 * page, 0, 0, 0), op(34, page, 0, 0, 0), op(32, 2 * page, 0, 0, 0), op(23, 2 * page, 0, 1, 0), op(24, 2 * page, 0, 0, 0)]);
+        case(rkind, size, gbase, vec![op(33, 2 * page - 4, 8, 0, 0), op(34, 2 * page - 4, 8, 0, 0), op(23, 2 * page - 4, 8, 0, 0), op(24, 2 * page - 4, 8, 0, 0), op(31, 2 * page - 4, 8, 9, 0), op(32, 2 * page - 4, 8, 0, 0), op(1, 2 * page - 8, 8, 0, 0)]);
         case(rkind, size, gbase, vec![op(15, 8, 64, 0, 0), op(15, page - 8, 64, 16, 0), op(16, page - 8, 64, 0, 0), op(18, page - 8, 64, 0, 0), op(17, page - 8, 2 * page, 0, 0)]);
     }
     // systematic: every guarded operation x offsets within / across pages, on every region kind
@@ -799,6 +916,16 @@ fn gen(rng: &mut Rng, tier: Tier, emit: &mut dyn FnMut(Vec<Tok>)) {
                 let mut ops = vec![op(0, off, len, 0, 0), op(1, off, len, 0, 0), op(11, off, len, len, 0), op(12, off, len, 0, 0)];
                 // descriptor streams: full file, short file, sink
                 ops.extend([op(15, off, len, len, 0), op(17, off, len, 0, 0), op(15, off, len, len / 2 + 1, 0), op(1, off, len, 0, 0)]);
+                // every other `Bytes` method, region level then guest-memory level
+                for code in [19u64, 20, 23, 24, 25, 26, 27, 28, 32, 33, 34] {
+                    ops.push(op(code, off, len, if code == 23 || code == 33 { 2 } else { 0 }, 0));
+                }
+                ops.push(op(31, off, len, len + 1, 0));
+                if len <= 16 {
+                    for code in [21u64, 22, 29, 30] {
+                        ops.push(op(code, off, len, 0, 0));
+                    }
+                }
                 if off + len <= size {
                     ops.push(op(16, off, len, 3, 0));
                     ops.push(op(18, off, len, 0, 0));
@@ -986,29 +1113,6 @@ enum Geo {
     A(usize, usize, usize),
 }
 
-macro_rules! with_k {
-    ($k:expr, $T:ident => $e:expr) => {
-        match $k {
-            1 => { type $T = [u8; 1]; $e }
-            2 => { type $T = [u8; 2]; $e }
-            3 => { type $T = [u8; 3]; $e }
-            4 => { type $T = [u8; 4]; $e }
-            5 => { type $T = [u8; 5]; $e }
-            6 => { type $T = [u8; 6]; $e }
-            7 => { type $T = [u8; 7]; $e }
-            8 => { type $T = [u8; 8]; $e }
-            9 => { type $T = [u8; 9]; $e }
-            10 => { type $T = [u8; 10]; $e }
-            11 => { type $T = [u8; 11]; $e }
-            12 => { type $T = [u8; 12]; $e }
-            13 => { type $T = [u8; 13]; $e }
-            14 => { type $T = [u8; 14]; $e }
-            15 => { type $T = [u8; 15]; $e }
-            16 => { type $T = [u8; 16]; $e }
-            _ => panic!("bad element size"),
-        }
-    };
-}
 // The trait methods of VolatileMemory tie the result to the borrow of `self`; the accessors they return point into
 // the region (and at its mapping handle), which outlives the whole chain: extend the lifetime.
 unsafe fn ext_s<'a>(s: VolatileSlice<'_, ()>) -> VS<'a> {
@@ -1104,7 +1208,7 @@ fn chain_step<'a>(acc: Acc<'a>, l: &[u128]) -> Option<Acc<'a>> {
 
 fn run_chain(cx: &mut Ctx, toks: &[Tok]) -> Option<bool> {
     let n = toks.len();
-    let region = &cx.region;
+    let region: &GuestRegionMmap<()> = &cx.region;
     let mut acc = chain_root(region, toks[0].l())?;
     let mut geo = geo_root(cx.size, toks[0].l());
     for t in &toks[1..n - 1] {
